@@ -130,6 +130,10 @@ def write_zip(path, members, cp437):
             else:
                 zi.external_attr = (stat.S_IFREG | 0o644) << 16
             zi.date_time = (2001, 2, 3, 4, 5, 6)
+            if len(name) % 5 == 1:
+                zi.date_time = (1980, 0, 0, 0, 0, 0)        # the all-zero DOS stamp of tools that write none
+            elif len(name) % 7 == 2:
+                zi.date_time = (2001, 2, 30, 24, 60, 60)    # not a calendar date (mktime normalises it)
             z.writestr(zi, data)
 
 
